@@ -26,6 +26,16 @@ type c18Case struct {
 	Property string         `json:"property"`
 	Schema   *schema.Schema `json:"schema"`
 	Observed string         `json:"observed,omitempty"`
+	// Strict disables the tolerance an open finding turns on (pinned replays of that finding).
+	Strict bool `json:"strict,omitempty"`
+}
+
+// c18SharedNames: while the finding about colliding component schema names is open, the "describes"
+// assertion is not made for short names shared by several reachable messages; every other rule
+// (references, parameters, operations, formats) is still checked on those documents.
+var c18SharedNames struct {
+	tolerate bool
+	skipped  int
 }
 
 func init() { register(&Check{ID: "C18", Run: runC18, Replay: replayC18}) }
@@ -273,12 +283,40 @@ func checkDocument(name string, doc any, sd protoreflect.ServiceDescriptor) stri
 			names = append(names, string(fn))
 		}
 		sort.Strings(names)
+		// every message of the service's file and of the files it imports competes for a schema name
+		shortCount := map[string]int{}
+		seenFile := map[string]bool{}
+		var walkFile func(fd protoreflect.FileDescriptor)
+		var walkMsgs func(ms protoreflect.MessageDescriptors)
+		walkMsgs = func(ms protoreflect.MessageDescriptors) {
+			for i := 0; i < ms.Len(); i++ {
+				if !ms.Get(i).IsMapEntry() {
+					shortCount[string(ms.Get(i).Name())]++
+					walkMsgs(ms.Get(i).Messages())
+				}
+			}
+		}
+		walkFile = func(fd protoreflect.FileDescriptor) {
+			if seenFile[fd.Path()] {
+				return
+			}
+			seenFile[fd.Path()] = true
+			walkMsgs(fd.Messages())
+			for i := 0; i < fd.Imports().Len(); i++ {
+				walkFile(fd.Imports().Get(i).FileDescriptor)
+			}
+		}
+		walkFile(sd.ParentFile())
 		for _, fn := range names {
 			md := reach[protoreflect.FullName(fn)]
 			sn := string(md.Name())
 			node, ok := schemas[sn]
 			if !ok {
 				return fmt.Sprintf("%s: message %s reachable from service %s has no component schema", name, fn, sd.Name())
+			}
+			if shortCount[sn] > 1 && c18SharedNames.tolerate {
+				c18SharedNames.skipped++
+				continue
 			}
 			if prev, dup := byShort[sn]; dup && prev != md.FullName() {
 				if d1, d2 := describes(doc, node, reach[prev]), describes(doc, node, md); d1 != "" || d2 != "" {
@@ -295,7 +333,8 @@ func checkDocument(name string, doc any, sd protoreflect.ServiceDescriptor) stri
 }
 
 // c18Eval checks one schema; returns "" if every rule holds.
-func c18Eval(c *core.Ctx, s *schema.Schema) (string, int, error) {
+func c18Eval(c *core.Ctx, s *schema.Schema, strict bool) (string, int, error) {
+	c18SharedNames.tolerate = !strict && c.KF.Avoid()["schema_short_name_collision"] != ""
 	req, err := schema.Request("", s)
 	if err != nil {
 		return "", 0, err
@@ -390,12 +429,17 @@ func runC18(c *core.Ctx) error {
 		var last *c18Case
 		res := rapidx.Check("C18", total/chunks, uint64(c.SubSeed(k)), 30*time.Second, func(t *rapid.T) {
 			s := schema.Generate(t, prof, "w0001")
-			msg, docs, err := c18Eval(c, s)
+			msg, docs, err := c18Eval(c, s, false)
 			if err != nil {
 				panic(err)
 			}
 			c.Ev.Eval(1)
 			c.Ev.Class("documents_parsed", docs)
+			for _, tg := range []string{"nested_type", "dup_short_name", "second_file", "recursive", "header_override", "transport:no_config", "feat:oneof_disc", "feat:oneof_flat", "feat:flatten", "feat:unwrap"} {
+				if hasTag(s, tg) {
+					c.Ev.Class("schema:"+tg, 1)
+				}
+			}
 			if hasTag(s, "nested_type") || hasTag(s, "second_file") || hasTag(s, "recursive") || len(s.Files[0].Services) >= 2 {
 				c.Ev.Nontrivial(schemaKey(s))
 			}
@@ -407,6 +451,10 @@ func runC18(c *core.Ctx) error {
 			}
 		})
 		c.Ev.Coverage.Schemas += res.Passed
+		if n := c18SharedNames.skipped; n > 0 {
+			c.Ev.ExcludedBy(avoid["schema_short_name_collision"]+":schema_short_name_collision(describes assertion)", n)
+			c18SharedNames.skipped = 0
+		}
 		if res.Failed && last != nil {
 			c.Violation("c18", last, last.Observed)
 		} else if res.Failed {
@@ -421,7 +469,7 @@ func replayC18(c *core.Ctx, doc json.RawMessage) (bool, string, error) {
 	if err := json.Unmarshal(doc, &cs); err != nil {
 		return false, "", err
 	}
-	msg, _, err := c18Eval(c, cs.Schema)
+	msg, _, err := c18Eval(c, cs.Schema, cs.Strict)
 	if err != nil {
 		return false, "", err
 	}
